@@ -46,17 +46,17 @@ static void layout_histories() {
 }
 // ring degrees other than 1024 (the decomposition itself is size-generic; multiples of 8, the vector width): every position must give the digits of its own value
 static void sizes() {
-    for (int n : {8, 16, 24, 512, 1032, 2048, 2056, 4096, 8192}) for (Layout L : {Layout{3, 7}, Layout{2, 10}, Layout{4, 8}}) {
+    for (int n : {8, 16, 24, 512, 1024, 1032, 2048, 2056, 4096, 8192}) for (Layout L : {Layout{3, 7}, Layout{2, 10}, Layout{4, 8}, Layout{1, 8}}) {
         std::string key = fmt("sizes/N=%d/l=%d/Bgbit=%d", n, L.l, L.Bgbit);
         if (!take(key)) continue; if (deadline()) return; current(key);
         TLweParams *tp = new_TLweParams(n, 1, 0., 1.); TGswParams *gp = new_TGswParams(L.l, L.Bgbit, tp); TorusPolynomial *in = new_TorusPolynomial(n); IntPolynomial *dec = new_IntPolynomial_array(L.l, n);
         uint64_t x = n * 31 + L.l; bool ok = true;
-        for (int rep = 0; rep < 4 && ok; rep++) { for (int j = 0; j < n; j++) in->coefsT[j] = rep == 0 ? (Torus32)(j * 2654435761u) : (Torus32)splitmix(x);
+        for (int rep = 0; rep < 7 && ok; rep++) { for (int j = 0; j < n; j++) in->coefsT[j] = rep == 4 ? 0 : rep == 5 ? INT32_MIN : rep == 6 ? (j == n - 1 ? 1 : 0) : rep == 0 ? (Torus32)(j * 2654435761u) : (Torus32)splitmix(x);   // 4: the zero polynomial, 5: constant, 6: a single unit coefficient
             std::vector<Torus32> backup(in->coefsT, in->coefsT + n); for (int p = 0; p < L.l; p++) memset(dec[p].coefs, 0x77, n * 4);
             tGswTorus32PolynomialDecompH(dec, in, gp);
             if (memcmp(backup.data(), in->coefsT, n * 4)) { violation(key, fmt("input polynomial modified (N=%d)", n)); ok = false; }
             for (int j = 0; j < n && ok; j++) ok = check_coeff(key, L, (uint32_t)backup[j], dec, j); }
-        eval(4 * (uint64_t)n); nontrivial(1); outcome(mix(n, L.l * 100 + L.Bgbit));
+        eval(7 * (uint64_t)n); nontrivial(1); outcome(mix(n, L.l * 100 + L.Bgbit));
         delete_IntPolynomial_array(L.l, dec); delete_TorusPolynomial(in); delete_TGswParams(gp); delete_TLweParams(tp);
     }
     sample("sizes/N=4096/l=3/Bgbit=7: decomposition of polynomials of degree 4096 (position-dependent and seeded contents): every coefficient's digits satisfy the relation for that coefficient's value");
